@@ -68,7 +68,7 @@ def derives_from_call(fa, op, block, depth=0, seen=None):
     pl = op_place(op)
     if pl is None or depth > 25:
         return False
-    if any(e != "*" and "f" in e for e in pl["p"]):
+    if any(e != "*" and ("f" in e or "ci" in e) for e in pl["p"]):
         from mir import through_aggregates
         o2 = through_aggregates(fa, pl)
         p2 = op_place(o2)
@@ -781,13 +781,15 @@ def corpus_format(ctx):
             if o_[0] == "rv" and o_[1]["k"] == "discr":
                 dpl = o_[1]["place"]
                 src_ = rfa.origin({"c": {"l": dpl["l"], "p": []}})
-                flds = [e for e in dpl["p"] if isinstance(e, dict) and e.get("o") == "(tuple)"]
+                flds = [e for e in dpl["p"] if isinstance(e, dict) and (e.get("o") == "(tuple)" or "ci" in e)]
                 if flds and len(dpl["p"]) == 1:
-                    # `match (a, b, c) { .. }`: the discriminant of one member of the tuple
+                    # `match (a, b, c) { .. }` / `match [a, b, c] { .. }`: the discriminant of one
+                    # member of the tuple or array
                     dd0 = rfa.single_def(dpl["l"])
-                    if dd0 and dd0[2] == "assign" and dd0[3]["k"] == "agg" and dd0[3].get("agg") == "tuple" \
-                            and flds[0]["f"] < len(dd0[3]["ops"]):
-                        src_ = rfa.origin(dd0[3]["ops"][flds[0]["f"]])
+                    kk0 = flds[0]["f"] if "f" in flds[0] else flds[0]["ci"]
+                    if dd0 and dd0[2] == "assign" and dd0[3]["k"] == "agg" and dd0[3].get("agg") in ("tuple", "array") \
+                            and kk0 < len(dd0[3]["ops"]) and not flds[0].get("from_end"):
+                        src_ = rfa.origin(dd0[3]["ops"][kk0])
                     else:
                         src_ = ("?",)
                 elif dpl["p"]:
